@@ -41,7 +41,7 @@ def sw_configs():
 SW = sw_configs()
 N_SW = len(SW)
 TIERS = {"quick": {"cases": N_SW + 6000}, "thorough": {"cases": N_SW + 200000}}
-FLOORS = {"quick": {"swv_configs": N_SW, "strided_bounds_checks": 3000, "layer_compared": 2500, "validity_checks": 3000},
+FLOORS = {"quick": {"swv_configs": N_SW, "strided_bounds_checks": 2000, "layer_compared": 2500, "validity_checks": 3000},
           "thorough": {"swv_configs": N_SW, "strided_bounds_checks": 60000, "layer_compared": 90000, "validity_checks": 100000}}
 LAYER_KINDS = ["conv", "conv", "conv", "pool", "pool", "batchnorm", "softmax", "loss", "loss", "gru_slot"]
 
@@ -92,7 +92,8 @@ def gen_case(rng, cfg, idx):
                   "weights": rng.random() < 0.5, "yscalar": rng.random() < 0.3, "twoD": rng.random() < 0.5})
     else:
         c.update({"T": rng.randint(1, 3), "N": rng.randint(1, 2), "C": rng.randint(1, 3), "D": rng.randint(1, 3), "s0": rng.random() < 0.4,
-                  "consts": [rng.random() < 0.2 for _ in range(10)], "dtype": rng.choice(["float64", "float64", "float32"])})
+                  "consts": [rng.random() < 0.2 for _ in range(10)],
+                  "dtype": rng.choice(["float64", "float64", "float32"]) if cfg.get("tier") == "thorough" else "float64"})
     return c
 
 
